@@ -15,7 +15,7 @@
                              "parts":[{"minor":n,"name":hex,"s":[11],"ext":[…],"others":[[hex,hex]],"attrs":[tree]}]}],
       "procfs":b,"perdisk":b}
          → {"tree":[tree],"file":hex|null,"model":out,"spec":out}   tree = Spec.renderSysfs, file = Spec.renderDiskstats
-           (present iff "procfs"); spec = expectSysfs (no /proc/diskstats) resp. expectDisk (with it)
+           (present iff "procfs"); spec = the kernel's names and counters whichever source is read
      {"op":"sysfsraw","tree":[tree]|null,"diskstats":hex|null,"perdisk":b} → {"model":out,"spec":out|null}
          tree = {"name":hex,"files":[[hex,hex]],"subs":[tree]}; spec only for the world with neither source
      {"op":"int","toks":[hex]} → {"model":[int | "ValueError" | "unmodelled"]}     int() of one token
@@ -197,7 +197,7 @@ def handle (_ : Unit) (j : Json) : R (Unit × Json) := do
     let tree := Spec.renderSysfs disks
     let devs := Spec.sysDevs disks
     let file := if procfs then some (Spec.renderDiskstats devs) else none
-    let sp := if procfs then Spec.expectDisk per devs else Spec.expectSysfs per disks
+    let sp := if procfs then Spec.expectDisk per devs else Spec.expectSysfs per disks   -- the same promise
     return ((), jObj [("tree", jList jTree tree), ("file", jOpt jBytes file),
                       ("model", jOut (diskIoCountersW ⟨file, some tree⟩ per)), ("spec", jExpect sp)])
   else if op == "sysfsraw" then
